@@ -2,7 +2,9 @@
 // their target queue in dbpd_queue before retaining it ..."): dispatch_block_wait racing the submission of the same
 // block object.  Before the fix this program died with "Over-release of an object" inside dispatch_block_wait within
 // the first 200000 iterations (3/3 runs); public API only.
-// usage: c19_qref_race <iterations>; exit 0 = no crash.
+// usage: c19_qref_race <iterations>; exit 0 = no crash; exit 3 = no hand-off completed for 60 s (a wait or a sync that
+// never returns).  Iteration-bounded; the watchdog is progress-based (it never fires while hand-offs complete, however
+// slowly); the spin loops yield after a short burst so that the two threads make progress on a loaded machine.
 #include <dispatch/dispatch.h>
 #include <Block.h>
 #include <pthread.h>
@@ -10,22 +12,35 @@
 #include <stdlib.h>
 #include <stdatomic.h>
 #include <unistd.h>
+#include <sched.h>
 static dispatch_block_t db; static dispatch_queue_t q; static _Atomic int go, done_a, done_b; static _Atomic long iter;
 static int delay; static long wres;
+#define SPIN_UNTIL(cond) do { for (unsigned _n = 0; !(cond); _n++) if (_n > 4000) { sched_yield(); _n = 0; } } while (0)
+static void *watchdog(void *a) {
+	(void)a; long last = -2; int idle = 0;
+	for (;;) {
+		usleep(500000);
+		long cur = atomic_load(&iter);
+		if (cur < 0) return NULL;
+		if (cur == last) idle++; else { idle = 0; last = cur; }
+		if (idle >= 120) { printf("NOPROGRESS at iteration %ld\n", cur); fflush(stdout); _exit(3); }
+	}
+}
 static void *waiter(void *a) {
 	(void)a;
 	for (;;) {
 		long it = atomic_load(&iter);
-		while (atomic_load(&go) != it + 1) { if (atomic_load(&iter) < 0) return NULL; }
+		SPIN_UNTIL(atomic_load(&go) == it + 1 || atomic_load(&iter) < 0);
+		if (atomic_load(&iter) < 0) return NULL;
 		for (volatile int i = 0; i < delay; i++) {}
 		wres = dispatch_block_wait(db, DISPATCH_TIME_NOW);
 		atomic_store(&done_b, 1);
-		while (atomic_load(&iter) == it) {}
+		SPIN_UNTIL(atomic_load(&iter) != it);
 	}
 }
 int main(int argc, char **argv) {
 	long n = argc > 1 ? atol(argv[1]) : 2000000;
-	pthread_t th; pthread_create(&th, NULL, waiter, NULL);
+	pthread_t th, wd; pthread_create(&th, NULL, waiter, NULL); pthread_create(&wd, NULL, watchdog, NULL);
 	for (long it = 0; it < n; it++) {
 		q = dispatch_queue_create("c", NULL);
 		db = dispatch_block_create(0, ^{});
@@ -33,7 +48,7 @@ int main(int argc, char **argv) {
 		atomic_store(&done_b, 0);
 		atomic_store(&go, (int)(it + 1));
 		dispatch_async(q, db);
-		while (!atomic_load(&done_b)) {}
+		SPIN_UNTIL(atomic_load(&done_b));
 		if (wres) dispatch_block_wait(db, DISPATCH_TIME_FOREVER); // a block object may be waited for successfully only once
 		dispatch_sync(q, ^{});
 		Block_release(db); dispatch_release(q);
